@@ -2,14 +2,18 @@ import ThermoVerif.Model.PropCache
 import Driver.Util
 /-
 Line protocol for C14 (memoised stream properties).
-  new | proxy <o> | view <o> | mut <o> state|resets|collapse | read <o> <name> <keyid> | readempty <o>
+  new <pkg> | proxy <o> | view <o> | mut <o> state|resets|collapse|rebind | mut <o> thermo <pkg>
+  | read <o> <name> <keyid> (answer: hit|miss p<pkg the value was computed with>) | readfail <o> <keyid> | readempty <o>
 -/
 namespace Driver.C14
 open ThermoVerif.PropCache Driver
 
 def step (w : World) (line : String) : World × String :=
   match splitWs line with
-  | ["new"] => let (w', o) := w.newObj; (w', s!"ok {o}")
+  | ["new", p] =>
+    match p.toNat? with
+    | some p => let (w', o) := w.newObj p; (w', s!"ok {o}")
+    | none => (w, "bad-op")
   | ["proxy", o] =>
     match o.toNat? with
     | some o => let (w', p) := w.proxy o; (w', s!"ok {p}")
@@ -18,6 +22,10 @@ def step (w : World) (line : String) : World × String :=
     match o.toNat? with
     | some o => let (w', v) := w.view o; (w', s!"ok {v}")
     | none => (w, "bad-op")
+  | ["mut", o, "thermo", p] =>
+    match o.toNat?, p.toNat? with
+    | some o, some p => (w.mut o (.thermo p), "ok")
+    | _, _ => (w, "bad-op")
   | ["mut", o, m] =>
     match o.toNat?, (match m with
         | "state" => some Mut.state | "resets" => some Mut.resets | "collapse" => some Mut.collapse
@@ -29,8 +37,9 @@ def step (w : World) (line : String) : World × String :=
     match o.toNat?, k.toNat? with
     | some o, some k =>
       let (w', out, v) := w.read o name k
-      -- the theorem says v = k; the driver still reports it so a model regression is visible
-      (w', (match out with | .hit => "hit" | .miss => "miss") ++ (if v = k then "" else s!" STALE({v})"))
+      -- the theorem says v = (k, current package); the driver still reports it so a model regression is visible
+      (w', (match out with | .hit => "hit" | .miss => "miss") ++ s!" p{v.2}"
+            ++ (if v = (k, w.pkgOf o) then "" else s!" STALE({v.1},{v.2})"))
     | _, _ => (w, "bad-op")
   | ["readfail", o, k] =>
     match o.toNat?, k.toNat? with
